@@ -323,7 +323,10 @@ fn judge(out: &mut UnitOut, origin: &str, m: &ErrMut, k: usize) {
     // ... and only for mutation kinds that leave the text syntactically well-formed: after a syntax error the parser's
     // recovered nodes (e.g. a call closed early at the error) are not constructs the user wrote
     let syntax_preserving = matches!(m.kind, "rename-to-undefined" | "unknown-field" | "literal-of-other-type" | "assign-to-let" | "unknown-named-argument" | "paren-operand");
-    let text_balanced = syntax_preserving && balanced(0, v.len()) != Some(false);
+    // ... and only for the variants that add a comment line or text inside a literal: a string-literal STATEMENT put on or
+    // above the site's line (variants 3-6) is itself a syntax error when the site is inside a match or an argument list
+    let variant_keeps_syntax = matches!(k, 0 | 1 | 2 | 7 | 8);
+    let text_balanced = syntax_preserving && variant_keeps_syntax && balanced(0, v.len()) != Some(false);
     for (i, d) in dv.iter().enumerate() {
         if !text_balanced {
             break;
